@@ -263,6 +263,24 @@ func (c *Conn) Read(p []byte) (int, error) {
 		if tm != nil {
 			tm.Stop()
 		}
+		// woken by a delivery, a close or a timer: park before running any further, so that the
+		// reader never runs concurrently with whoever woke it (no-op for goroutines that are not tasks
+		// of an instrumented stack... they become tasks here, which only makes them more orderly)
+		simrt.Yield("net.read+")
+		// now nobody else runs: drop whatever wake-up tokens are left, so that the number of further
+		// wake-ups does not depend on which ready case the runtime's select happened to take
+		drain(h.rsig)
+		drain(c.dlsig)
+	}
+}
+
+func drain(c chan struct{}) {
+	for {
+		select {
+		case <-c:
+		default:
+			return
+		}
 	}
 }
 
